@@ -18,7 +18,9 @@ pub const URIS: [&str; 12] = [
     "http://localhost:8080/x?y=1",
     "*",
 ];
-pub const PADS: [&str; 7] = ["", " ", "  ", "\t", "\u{a0}", "\u{3000}", " \t "];
+pub const PADS: [&str; 10] = ["", " ", "  ", "\t", "\u{a0}", "\u{3000}", " \t ", "\u{b}", "\u{c}\u{85}", "\u{2003}"];
+/// look like padding but are NOT whitespace: must not be trimmed
+pub const ODD_PADS: [&str; 5] = ["\u{0}", "\u{1f}", "\u{200b}", "\u{7f}", "\u{1}\u{8}"];
 pub const REC_NAMES: [&str; 7] = [
     "Content-Length",
     "Content-Type",
@@ -104,13 +106,16 @@ pub fn header_line(rng: &mut Rng, wild: bool) -> Vec<u8> {
     } else {
         (rng.pick(&CUSTOM_NAMES).to_string(), &OTHER_VALUES)
     };
-    line.extend_from_slice(rng.pick(&PADS).as_bytes());
+    // one of the four paddings is, now and then, a control / zero-width character that is not whitespace
+    let odd = if wild && rng.chance(1, 8) { rng.below(4) } else { 9 };
+    let pad = |rng: &mut Rng, k: usize| -> &'static str { if k == odd { *rng.pick(&ODD_PADS) } else { *rng.pick(&PADS) } };
+    line.extend_from_slice(pad(rng, 0).as_bytes());
     line.extend_from_slice(name.as_bytes());
-    line.extend_from_slice(rng.pick(&PADS).as_bytes());
+    line.extend_from_slice(pad(rng, 1).as_bytes());
     line.push(b':');
-    line.extend_from_slice(rng.pick(&PADS).as_bytes());
+    line.extend_from_slice(pad(rng, 2).as_bytes());
     line.extend_from_slice(rng.pick(vals).as_bytes());
-    line.extend_from_slice(rng.pick(&PADS).as_bytes());
+    line.extend_from_slice(pad(rng, 3).as_bytes());
     if wild && rng.chance(1, 12) {
         line.extend_from_slice(b": extra");
     }
